@@ -73,7 +73,7 @@ theorem Good.seq {α β : Type} {a : Pair α} {b : Pair β} (ha : Good a) (hb : 
 
 /-- the leaf of the first tier: a positioned `A_INT32` object with an in-range value -/
 def Pair.ofObj (o : Obj) (v : IVal) : Pair IVal :=
-  { enc := encStep o v, dec := decStep o, val := v, fits := fun d => o.pos d.origin d.cursorByte + o.k ≤ d.msg.length }
+  { enc := encStep o v, dec := decStep o, val := v, fits := o.fitsIn }
 
 theorem Good.ofObj (o : Obj) (ho : o.ok) (v : IVal) (hr : o.inRange v) : Good (Pair.ofObj o v) where
   warn_mono := encStep_warn_ge o v
@@ -99,8 +99,8 @@ theorem Good.ofObj (o : Obj) (ho : o.ok) (v : IVal) (hr : o.inRange v) : Good (P
       rw [encStep_msg]
       exact this
     rw [hpos] at hread
-    simp only [Pair.ofObj, decStep, hpos, hread, hinv, encStep_cursor, true_and]
-    exact Nat.le_trans hlen1 hlen
+    simp only [Pair.ofObj, Obj.fitsIn, decStep, hpos, hread, hinv, encStep_cursor, true_and]
+    exact ⟨Nat.le_trans hlen1 hlen, o.raw_decodes ho v hr⟩
   core := encStep_sameCore o v
 
 /-- a composite object: the content is laid out relative to the composite's own first byte -/
